@@ -1439,6 +1439,35 @@ class Run:
         self.bump("probe:bounce_on_unloaded_dict_collection")
         return "%d bounce%d" % (e["label"], how)
 
+    def op_row_switch(self, a1, a2):
+        """delete(obj) and add(a new object with the same primary key) before one flush: the unit of work turns the pair into an UPDATE
+        of the row ("row switch"); afterwards the new object is persistent and the row carries its values"""
+        sess = self.session
+        before = {id(x) for x in sess.deleted}
+        r = self.op_delete(a1 * 4 + 1, a2)          # (the validity rules of a delete apply)
+        newly = [x for x in sess.deleted if id(x) not in before]
+        if r == "skip" or len(newly) != 1:
+            return r
+        o = newly[0]
+        e = self.by_id.get(id(o))
+        if e is None or e["cls"] not in ("Node", "T", "A", "K") or OS.state_of(o) != "persistent":
+            return r
+        pk = OS.pk_of(o)
+        C = self.U["classes"][e["cls"]]
+        if e["cls"] == "K":
+            new = C(name=pk, val=a2, memo="rs%d" % a2)
+        elif e["cls"] == "A":
+            new = C(id=pk, name="rs%d" % a2, data={"k": a2}, items=[a2])
+        else:
+            new = C(id=pk, name="rs%d" % a2)
+        self.track(new, e["cls"])
+        e["replaced"] = True               # its identity now belongs to the new object (same bookkeeping as row_replace)
+        before_members = self.members()
+        sess.add(new)
+        self.check_add_cascade(new, before_members)
+        self.bump("probe:row_switch")
+        return "%s + new %s#%s" % (r, e["cls"], pk)
+
     def op_q_ops(self, a1, a2):
         """unidirectional delete-orphan one-to-many Q.rs"""
         C = self.U["classes"]
